@@ -120,6 +120,9 @@ def isotxs_specs(quick, fmt="isotxs"):
                     if not quick:
                         add(ng, [_nuc(0, 0, (0, 0, 0, 0, 0), 0, 1, 1, b2), _nuc(1, 0, (0, 1, 0, 1, 0), 0, 1, 1, b1), _nuc(1, 1, (1, 1, 1, 1, 1), 2, 2, 2, b1)],
                             fwchi=1, nsblok=nsblok, tag="multi3")
+    if True:  # one record (the scatter block) beyond io.DEFAULT_BUFFER_SIZE fields (both tiers: cheap)
+        add(130, [_nuc(1, 1, (0, 0, 1, 0, 0), 0, 2, 1, [[100, 1, full_band(130)], [200, 1, diag_band(130)]])], tag="big")
+        out[-1]["big"] = True
     return out
 
 
@@ -323,6 +326,8 @@ def pmatrx_specs(quick):
                         for nnuc in (1, 2):
                             out.append({"fmt": "pmatrx", "nn": nn, "ngam": ngam, "dose": dose,
                                         "nucs": [{"heat": heat, "gheat": gheat, "order": order, "nxs": nxs}] + ([{"heat": not heat, "gheat": not gheat, "order": max(0, 2 - order), "nxs": 0}] if nnuc == 2 else [])})
+    if True:  # one record beyond io.DEFAULT_BUFFER_SIZE fields (both tiers: cheap)
+        out.append({"fmt": "pmatrx", "big": True, "nn": 95, "ngam": 90, "dose": True, "nucs": [{"heat": True, "gheat": True, "order": 2, "nxs": 0}]})
     return out
 
 
@@ -431,6 +436,8 @@ def dlayxs_specs(quick):
                     for ndum in (0, 2):
                         for lablen in (8, 31):
                             out.append({"fmt": "dlayxs", "G": g, "nnuc": nnuc, "nfam": nfam, "nkfam": nk, "ndummy": ndum, "lablen": lablen})
+    if True:  # one record beyond io.DEFAULT_BUFFER_SIZE fields (both tiers: cheap)
+        out.append({"fmt": "dlayxs", "big": True, "G": 90, "nnuc": 2, "nfam": 100, "nkfam": 6, "ndummy": 2, "lablen": 31})
     return out
 
 
@@ -439,9 +446,10 @@ def _dl_model(s, rot=0):
     g, nn, nf = s["G"], s["nnuc"], s["nfam"]
     m = {"label": ("DLAYXS C09 " + "x" * 40)[: s["lablen"]], "G": g, "nfam": nf, "dummy": v.i(), "ids": DLAY_POOL[:nn], "decay": v.reals(nf),
          "spec": {(gg, f): v.r() for f in range(nf) for gg in range(g)}, "emax": [x * 1e5 for x in v.reals(g)], "emin": v.r(),
-         "nkfam": [s["nkfam"]] * nn, "skip": list(range(nn)), "dummy2": ["D%d" % i for i in range(s["ndummy"])], "nucs": []}
+         # families per nuclide (sizes its yield record): the first as given, the others different
+         "nkfam": [s["nkfam"] if k == 0 else (s["nkfam"] + 3 * k) % 7 for k in range(nn)], "skip": list(range(nn)), "dummy2": ["D%d" % i for i in range(s["ndummy"])], "nucs": []}
     for k in range(nn):
-        m["nucs"].append({"yield": {(p, gg): v.r() for p in range(s["nkfam"]) for gg in range(g)}, "family": [1 + (k + p) % nf for p in range(6)]})
+        m["nucs"].append({"yield": {(p, gg): v.r() for p in range(m["nkfam"][k]) for gg in range(g)}, "family": [1 + (k + p) % nf for p in range(6)]})
     return m
 
 
@@ -523,6 +531,8 @@ def compxs_specs(quick):
     for ng in (1, 2):
         for fw, nd in ((1, 0), (2, 0), (0, 1), (0, 3), (1, 2)):
             out.append({"fmt": "compxs", "ng": ng, "widths": scatter_widths(ng)[-1], "order": 0, "chis": [1], "fam": 2 if nd else 0, "fwchi": fw, "ndelay": nd})
+    if not quick:  # one record (power conversion factors, 2 reals per composition) beyond io.DEFAULT_BUFFER_SIZE fields
+        out.append({"fmt": "compxs", "big": True, "ng": 1, "widths": [[0, 0]], "order": 0, "chis": [k % 2 for k in range(4100)], "fam": 0, "fwchi": 0, "ndelay": 0})
     return out
 
 
@@ -531,15 +541,17 @@ def _cx_model(s, rot=0):
     ng, nc = s["ng"], len(s["chis"])
     m = {"ng": ng, "nc": nc, "fwchi": s["fwchi"], "nfis": sum(1 for c in s["chis"] if c), "maxup": max(w[0] for w in s["widths"]), "maxdn": max(w[1] for w in s["widths"]),
          "ndelay": s["ndelay"], "order": s["order"], "res1": v.i(), "res2": v.i(), "vel": [x * 1e7 for x in v.reals(ng)], "emax": [x * 1e5 for x in v.reals(ng)], "emin": v.r(),
-         "fams": [s["fam"]] * nc, "fisw": v.reals(nc), "capw": v.reals(nc), "comps": []}
+         # precursor families per composition (sizes 3D/4D record tails): first as given, others different
+         "fams": [(s["fam"] + k) % 3 for k in range(nc)], "fisw": v.reals(nc), "capw": v.reals(nc), "comps": []}
     m["fwchiData"] = {(g, c): v.r() for c in range(s["fwchi"]) for g in range(ng)} if s["fwchi"] else None
     m["dchi"] = {(f, g): v.r() for g in range(ng) for f in range(s["ndelay"])} if s["ndelay"] else None
     m["ddecay"] = v.reals(s["ndelay"])
     for c, chiFlag in enumerate(s["chis"]):
-        q = {"chiFlag": chiFlag, "up": [w[0] for w in s["widths"]], "down": [w[1] for w in s["widths"]], "famI": v.ints(s["fam"]), "groups": []}
+        fam = m["fams"][c]
+        q = {"chiFlag": chiFlag, "up": [w[0] for w in s["widths"]], "down": [w[1] for w in s["widths"]], "fam": fam, "famI": v.ints(fam), "groups": []}
         q["scat"] = {o: {} for o in range(s["order"] + 1)}
         for g in range(ng):
-            gr = {"prim": v.reals(4), "fis": v.reals(2) if chiFlag else None, "chi": v.reals(chiFlag), "pc": v.reals(7), "prec": v.ints(s["fam"]), "n2n": v.r()}
+            gr = {"prim": v.reals(4), "fis": v.reals(2) if chiFlag else None, "chi": v.reals(chiFlag), "pc": v.reals(7), "prec": v.ints(fam), "n2n": v.r()}
             for o in range(s["order"] + 1):
                 for r in range(g - q["down"][g], g + q["up"][g] + 1):
                     q["scat"][o][r, g] = v.r()
@@ -581,7 +593,7 @@ def compxs_build(s, rot=0):
         r = reg.metadata
         r["chiFlag"] = q["chiFlag"]
         r["numUpScatterGroups"], r["numDownScatterGroups"] = np.array(q["up"], dtype=int), np.array(q["down"], dtype=int)
-        if s["fam"]:
+        if q["fam"]:
             r["numFamI"] = np.array(q["famI"], dtype=int)
         from armi.nuclearDataIO.nuclearFileMetadata import REGIONXS_POWER_CONVERT_DIRECTIONAL_DIFF as pcKeys
 
@@ -596,7 +608,7 @@ def compxs_build(s, rot=0):
             mac.fission = np.array([gr["fis"][0] for gr in q["groups"]])
             mac.nuSigF = np.array([gr["fis"][1] for gr in q["groups"]])
             mac.chi = np.array([gr["chi"] for gr in q["groups"]])
-        if s["fam"]:
+        if q["fam"]:
             for g, gr in enumerate(q["groups"]):
                 r["numPrecursorsProduced", g] = np.array(gr["prec"], dtype=int)
         for o, tab in q["scat"].items():
@@ -617,11 +629,12 @@ def compxs_ref_lengths(s, rot=0):
     # the width (and index order) of the file-wide chi / delayed chi blocks cannot be settled offline
     # (armi uses 4-byte reals there, 8-byte ones everywhere else in this file): presence only
     recs.append(("2D-composition-independent-data", None if (s["fwchi"] or s["ndelay"]) else 8 * (2 * ng + 1) + 4 * nc))
-    for chiFlag in s["chis"]:
-        recs.append(("3D-composition-specifications", 4 * (1 + 2 * ng + s["fam"])))
+    for c, chiFlag in enumerate(s["chis"]):
+        fam = (s["fam"] + c) % 3
+        recs.append(("3D-composition-specifications", 4 * (1 + 2 * ng + fam)))
         for g in range(ng):
             nscat = s["widths"][g][0] + 1 + s["widths"][g][1]
-            recs.append(("4D-composition-group-cross-sections", 8 * (4 + ((2 + chiFlag) if chiFlag else 0) + nscat + 7 + 1 + s["order"] * nscat) + 4 * s["fam"]))
+            recs.append(("4D-composition-group-cross-sections", 8 * (4 + ((2 + chiFlag) if chiFlag else 0) + nscat + 7 + 1 + s["order"] * nscat) + 4 * fam))
     recs.append(("5D-power-conversion-factors", 8 * 2 * nc))
     return recs
 
